@@ -4,6 +4,7 @@ import CelmaVerif.Lemmas.GroupsCross
 import CelmaVerif.Lemmas.GroupsExamples
 import CelmaVerif.Lemmas.GroupsDispatchValue
 import CelmaVerif.Lemmas.GroupsHistory
+import CelmaVerif.Lemmas.GroupsRefusal
 /-
   C08 — evaluating through an argument group equals one handler owning all arguments.
 
@@ -18,7 +19,16 @@ import CelmaVerif.Lemmas.GroupsHistory
   Proved: `C08_group_equiv_partial`, under `GroupWellFormed` (abbreviations off, keys pairwise
   non-clashing, no positional argument, constraint partners and the arguments of a handler constraint
   inside one member) for command lines without the word `!` and without a comma inside a typed long
-  key (`ArgvPlain`; list values `-m 1,2,3`, `--list=1,2`, `-m1,2` are inside).
+  key (`ArgvPlain`: in a word that starts with a dash, no comma between the FIRST later dash and the
+  next `=` / the end of the word — the only stretch the cursor can read a long key from.  Inside:
+  value words `-m 1,2,3`, `-m -1,2`; everything behind the `=` of a long key `--list=1,2`,
+  `--max=-1,2`, `--name=a-b,c`; values glued to a short key with no dash before the comma `-m1,2`.
+  Outside: `--x,lll`, `-a-x,lll` and also `-m-1,2` — a dash behind short key characters followed by a
+  comma before the next `=`: whether `-1,2` is the value of `-m` or the long key `1,2` depends on the
+  configuration, which `ArgvPlain` does not see).
+  The relation `GroupAgrees` itself identifies EVERY `std::invalid_argument` of the single handler with
+  a `std::runtime_error` of the group, whatever its cause; that the pair occurs only at the
+  unknown-argument refusal is the separate theorem `C08_group_exceptions_partial`.
   "Keys pairwise non-clashing" is not an assumption about the program: `C08_accepted_history_disjoint`
   proves it for every registration history the cross check accepted.
 
@@ -251,9 +261,17 @@ theorem C08_finding_group_abbreviation :
     list arguments (`Cfg.ValueArgsOk`); every member is registered
     once and every argument / handler constraint belongs to a registered member.  One initial value
     per argument.  The command line contains no word `!`, and no comma inside a typed long key: in
-    a word that starts with a dash, no comma between a later dash and the next `=` or the end of the
-    word (`ArgvPlain`; `--x,lll` and `-a-x,lll` are excluded, list values in any spelling —
-    `-m 1,2,3`, `-m 1,-2`, `--list=1,2,3`, `-m1,2,3` — are inside).
+    a word that starts with a dash, no comma between the FIRST later dash and the next `=` or the end
+    of the word (`ArgvPlain`) — the cursor reads at most one long key from a word, behind that dash,
+    and takes everything behind its `=` as a value.  Inside are: value words (`-m 1,2,3`, `-m 1,-2`,
+    `-m -1,2`), everything behind the `=` of a long key (`--list=1,2,3`, `--max=-1,2`,
+    `--name=a-b,c`, `--files=my-file,other`), values glued to short keys when no dash precedes the
+    comma (`-m1,2,3`, `-m4,-5`).  Excluded are `--x,lll`, `-a-x,lll`, and also `-m-1,2`-style words
+    (a dash behind short key characters followed by a comma before the next `=`): whether `-1,2`
+    there is the value of `-m` or a further, long key `1,2` depends on whether `-m` takes a value,
+    i.e. on the configuration, and `ArgvPlain` is a condition on the command line alone.  (On the
+    example configuration group and single handler agree on `-m-1,2`, see the examples; it is the
+    hypothesis that is too narrow there, not the property that fails.)
     The key hypothesis `disj` holds for every group that could be registered
     (`C08_accepted_history_disjoint`).
     Then (`GroupAgrees`):
@@ -265,9 +283,15 @@ theorem C08_finding_group_abbreviation :
       unknown argument
       is a `std::invalid_argument` for `Handler` and a `std::runtime_error` for `Groups`;
     * hence the group accepts exactly when the single handler does (`C08_group_accepts_iff_partial`).
-    `GroupAgrees` allows `std::invalid_argument` of the single handler to become
-    `std::runtime_error` of the group whatever its cause; in the model only the unknown-argument
-    refusal of `iterateLoop` does.
+    COARSENESS OF `GroupAgrees`: the relation identifies EVERY `std::invalid_argument` of the single
+    handler with a `std::runtime_error` of the group, whatever its cause — also the
+    `invalid_argument` of a malformed typed key (`ArgumentKey( "---x")` for the word `-----x`, "too
+    many leading dashes", from `wordKey`) or of `hasIntersection` / `compareValue` on unsuited
+    destination types.  THIS theorem therefore does not exclude a group that reports the malformed
+    key `---x` as `std::runtime_error` (such a group would satisfy `GroupAgrees`).  That the pair
+    (`invalid_argument`, `runtime_error`) occurs ONLY at the unknown-argument refusal of
+    `iterateLoop` is the companion theorem `C08_group_exceptions_partial` below, not a consequence
+    of `GroupAgrees`.
     What is missing for the full statement: abbreviations (refuted by
     `C08_finding_group_abbreviation`), the inversion word `!`, a comma inside a typed long key, a
     positional argument (refuted by the three `C08_witness_…` theorems), and constraints whose
@@ -279,6 +303,29 @@ theorem C08_group_equiv_partial (cfg : Cfg) (inits : List DVal) (argMember globM
     GroupAgrees (evalArguments cfg (cfg.initState inits) {} argv)
       (groupDests cfg argMember order <$> groupsEval cfg inits argMember globMember order argv) :=
   group_agrees cfg inits argMember globMember order argv hwf hne hinits hargv
+
+/-- Companion of `C08_group_equiv_partial`, the exception classes exactly (same hypotheses): if the
+    single handler throws `e` and the group throws `e'`, then `e' = e`, or `e` is
+    `std::invalid_argument`, `e'` is `std::runtime_error` AND the single handler's run is its
+    unknown-argument refusal — the cursor could be opened (`It.begin`), every element before the
+    last was consumed, and for the last one `evalSingleArgument` RETURNED the answer `unknown`
+    without throwing (`UnknownRefusal`, which conversely makes `iterateLoop` throw
+    `invalid_argument`: `UnknownRefusal.throws`).  So an `invalid_argument` that is thrown inside
+    `evalSingleArgument` — a malformed typed key such as `---x` (word `-----x`) from `wordKey`,
+    `hasIntersection` / `compareValue` on unsuited destinations — or by the cursor is an
+    `invalid_argument` of the group as well.  This is what `GroupAgrees` alone does not say. -/
+theorem C08_group_exceptions_partial (cfg : Cfg) (inits : List DVal) (argMember globMember order : List Nat)
+    (argv : List Word) (hwf : GroupWellFormed cfg argMember globMember order) (hne : order ≠ [])
+    (hinits : inits.length = cfg.args.length) (hargv : ArgvPlain argv) (e e' : Exc)
+    (hs : evalArguments cfg (cfg.initState inits) {} argv = .throw e)
+    (hg : groupsEval cfg inits argMember globMember order argv = .throw e') :
+    e' = e ∨ (e = .invalid_argument ∧ e' = .runtime_error ∧
+      ∃ ai, It.begin argv = .ok ai ∧ UnknownRefusal cfg (totalChars argv) (cfg.initState inits) ai) := by
+  have h := group_agrees cfg inits argMember globMember order argv hwf hne hinits hargv
+  rw [hs, hg] at h
+  rcases (h : e' = e ∨ (e = .invalid_argument ∧ e' = .runtime_error)) with h | ⟨rfl, rfl⟩
+  · exact Or.inl h
+  · exact Or.inr ⟨rfl, rfl, group_refusal cfg inits argMember globMember order argv hwf hne hinits hargv hs hg⟩
 
 /-- End to end: under the same hypotheses the group accepts a command line exactly when the single
     handler owning all arguments accepts it.  In particular every rule attached inside a member
@@ -413,6 +460,20 @@ example : ArgvPlain exArgvOk ∧ ArgvPlain exArgvRequires ∧ ArgvPlain exArgvSt
 example : ArgvPlain exArgvList := exArgvList_plain
 example : ¬ ArgvPlain ["p".toList, "--x,lll".toList] ∧ ¬ ArgvPlain ["p".toList, "-x".toList, "!".toList] ∧
     ¬ ArgvPlain ["p".toList, "-a-x,lll".toList] := exArgv_not_plain
+-- the exact border of `ArgvPlain`.  Inside: whatever follows the `=` of a long key (dashes and commas
+-- alike), and value words
+example : ArgvPlain ["p".toList, "--max=-1,2".toList] := by decide
+example : ArgvPlain ["p".toList, "--name=a-b,c".toList] := by decide
+example : ArgvPlain ["p".toList, "--files=my-file,other".toList] := by decide
+example : ArgvPlain ["p".toList, "-m".toList, "-1,2".toList] := by decide
+-- outside: a comma between the first later dash of a word and the next `=` — also `-m-1,2`, where only
+-- the configuration decides whether `-1,2` is the value of `-m` or the long key `1,2` — and the word `!`
+example : ¬ ArgvPlain ["p".toList, "-m-1,2".toList] := by decide
+example : ¬ ArgvPlain ["p".toList, "--x,lll".toList] := by decide
+example : ¬ ArgvPlain ["p".toList, "-a-x,lll".toList] := by decide
+example : ¬ ArgvPlain ["p".toList, "!".toList] := by decide
+-- a comma in the key part itself stays outside even with a value behind it
+example : ¬ ArgvPlain ["p".toList, "--na,me=a".toList] := by decide
 example : exInits.length = exCfg.args.length := rfl
 
 -- accepted: `-m 1 2 -x -y --name=abc`, with the destinations of the single handler
@@ -431,6 +492,58 @@ example : (match groupsEval exCfg exInits exArgMember exGlobMember [1, 0] exArgv
 example : GroupAgrees (evalArguments exCfg (exCfg.initState exInits) {} exArgvList)
     (groupDests exCfg exArgMember [1, 0] <$> groupsEval exCfg exInits exArgMember exGlobMember [1, 0] exArgvList) := by
   decide +kernel
+
+-- a string value with dashes and a comma behind the `=` of a long key (inside `ArgvPlain` since the
+-- hypothesis was narrowed to the first later dash): `--name=a-b,c -x -y`, accepted by both, same value
+example : (match groupsEval exCfg exInits exArgMember exGlobMember [0, 1]
+      ["p".toList, "--name=a-b,c".toList, "-x".toList, "-y".toList] with
+    | .ok ms => (groupDests exCfg exArgMember [0, 1] ms).map (·.2.dest)
+    | _ => []) = [.flag true, .flag true, .vec [], .str "a-b,c".toList] := by decide +kernel
+example : GroupAgrees (evalArguments exCfg (exCfg.initState exInits) {} ["p".toList, "--name=a-b,c".toList, "-x".toList, "-y".toList])
+    (groupDests exCfg exArgMember [0, 1] <$> groupsEval exCfg exInits exArgMember exGlobMember [0, 1]
+      ["p".toList, "--name=a-b,c".toList, "-x".toList, "-y".toList]) := by decide +kernel
+-- `-m-1,2 -x -y` is OUTSIDE `ArgvPlain` although group and single handler agree on it for this
+-- configuration (`-m` takes a value): the hypothesis is sufficient, not necessary
+example : GroupAgrees (evalArguments exCfg (exCfg.initState exInits) {} ["p".toList, "-m-1,2".toList, "-x".toList, "-y".toList])
+    (groupDests exCfg exArgMember [1, 0] <$> groupsEval exCfg exInits exArgMember exGlobMember [1, 0]
+      ["p".toList, "-m-1,2".toList, "-x".toList, "-y".toList]) := by decide +kernel
+
+-- how coarse `GroupAgrees` is on exceptions: the relation itself accepts the pair (`invalid_argument`,
+-- `runtime_error`) without looking at the cause …
+example (ds : Res (List (ArgDef × ArgSt))) (h : ds = .throw .runtime_error) :
+    GroupAgrees (.throw .invalid_argument) ds := by subst h; exact Or.inr ⟨rfl, rfl⟩
+-- … the unknown argument `-z` produces that pair; the malformed typed key `---x` (word `-----x`) is an
+-- `invalid_argument` of both evaluators — as it must be by `C08_group_exceptions_partial`, not by
+-- `C08_group_equiv_partial`
+example : (match evalArguments exCfg (exCfg.initState exInits) {} ["p".toList, "-z".toList],
+      groupsEval exCfg exInits exArgMember exGlobMember [0, 1] ["p".toList, "-z".toList] with
+    | .throw .invalid_argument, .throw .runtime_error => true | _, _ => false) = true := by decide +kernel
+example : (match evalArguments exCfg (exCfg.initState exInits) {} ["p".toList, "-----x".toList],
+      groupsEval exCfg exInits exArgMember exGlobMember [0, 1] ["p".toList, "-----x".toList] with
+    | .throw .invalid_argument, .throw .invalid_argument => true | _, _ => false) = true := by decide +kernel
+
+-- `C08_group_exceptions_partial` on `-x -y -z`: its second alternative is met (the refusal after two
+-- consumed elements), and `UnknownRefusal` fails for the malformed key, whose exception is thrown
+-- inside `evalSingleArgument`
+example : ∃ ai, It.begin ["p".toList, "-x".toList, "-y".toList, "-z".toList] = .ok ai ∧
+    UnknownRefusal exCfg (totalChars ["p".toList, "-x".toList, "-y".toList, "-z".toList]) (exCfg.initState exInits) ai := by
+  have h := C08_group_exceptions_partial exCfg exInits exArgMember exGlobMember [0, 1]
+    ["p".toList, "-x".toList, "-y".toList, "-z".toList] (exCfg_wf _ (Or.inl rfl)) (by decide) rfl (by decide)
+    .invalid_argument .runtime_error (throws_of_match _ _ (by decide +kernel)) (throws_of_match _ _ (by decide +kernel))
+  rcases h with h | ⟨_, _, h⟩
+  · cases h
+  · exact h
+example : ∀ ai, It.begin ["p".toList, "-----x".toList] = .ok ai →
+    ¬ UnknownRefusal exCfg (totalChars ["p".toList, "-----x".toList]) (exCfg.initState exInits) ai := by
+  intro ai hb hu
+  obtain ⟨_, h', ai', r, he, _⟩ := (show UnknownRefusal exCfg (_ + 1) _ ai from hu)
+  have : (match It.begin ["p".toList, "-----x".toList] with
+      | .ok a => (match evalSingleArgument exCfg (exCfg.initState exInits) a with | .ok _ => false | _ => true)
+      | _ => true) = true := by decide +kernel
+  rw [hb] at this
+  dsimp only at this
+  rw [he] at this
+  cases this
 
 -- rejected by a rule attached inside member 0 (`-x` requires `-y`): `-m 1 -x`; the pinned code,
 -- which only checked mandatory/cardinality at the end, accepted it
